@@ -11,6 +11,9 @@ fn main() {
         std::process::exit(2);
     }
     let engine = args[1].as_str();
+    if engine == "serve" {
+        std::process::exit(mcv::config::serve(&args[2..]));
+    }
     let ctx = Ctx::from_args(&args[2..]);
     let code = match engine {
         "kv" => mcv::kv::run(&ctx),
@@ -22,6 +25,7 @@ fn main() {
         "bloat" => mcv::l3::run_bloat(&ctx),
         "slots" => mcv::l3b::run_c17(&ctx),
         "fault" => mcv::l3b::run_c18(&ctx),
+        "config" => mcv::config::run_c20(&ctx),
         "pipe" => mcv::l3::run_c12(&ctx),
         "toolarge" => mcv::l3::run_c13(&ctx),
         "sockframe" => mcv::l3::run_sock_frames(&ctx),
